@@ -164,3 +164,15 @@ Lemma peers_example :
   option_map alive (hget b (hrun cfg_fixed 100 [A; a; b] es)) = Some (Some 2) /\
   no_torn (flat_map (proj a) es) = true.
 Proof. vm_compute. repeat split; reflexivity. Qed.
+
+(** the agent's wiring: an event the session layer reports for the configured peer reaches the log
+    that init() registered for it *)
+Lemma agent_wiring a cb ok sz k :
+  proj (lower a) (HEv (factory_peer_addr a) cb ok sz) = [Ev cb ok sz] /\
+  proj (lower a) (HCrash (factory_peer_addr a) cb ok sz k) = [Crash cb ok sz k] /\
+  hget (lower (factory_peer_addr a)) (hstart cfg_fixed [a]) = Some (start_on cfg_fixed []).
+Proof.
+  unfold factory_peer_addr, proj.
+  destruct (bytes_eqb_spec (lower a) (lower a)) as [_|H]; [|contradiction].
+  repeat split. apply hstart_get. left. reflexivity.
+Qed.
